@@ -228,6 +228,11 @@ func (_this *Context) NotifyKey(key interface{}) {
 		if v >= 0 {
 			key = uint64(v)
 		}
+	case negint:
+		// Magnitude of a negative integer: normalize it like any other integer.
+		bi := new(big.Int).SetUint64(uint64(v))
+		_this.NotifyKey(bi.Neg(bi))
+		return
 	case uint:
 		key = uint64(v)
 	case uint8:
